@@ -330,8 +330,20 @@ def main():
                   nofail=True)
     else:
         # 3+4. run implementation, direct oracle, then the model inside Coq
-        rc, out = sh([exe, pid, "--seed", str(seed), "--tier", tier, "--out", outdir, "--scale", str(a.scale)],
-                     env=GOENV, timeout=cfg.get("harness_timeout", 3000))
+        # The Go 1.24.0 runtime occasionally segfaults inside runtime.Stack(all=true) (unwinder.next reached from
+        # tracebackothers) — the stack-inspection suites call it thousands of times per run. That crash is in the
+        # toolchain's traceback code, not in the code under test: such a run is repeated (a crash caused by the
+        # code under test repeats too and is then reported).
+        for attempt in range(4):
+            rc, out = sh([exe, pid, "--seed", str(seed), "--tier", tier, "--out", outdir, "--scale", str(a.scale)],
+                         env=GOENV, timeout=cfg.get("harness_timeout", 3000))
+            runtime_tb_crash = (rc != 0 and "SIGSEGV" in out and "runtime.(*unwinder).next" in out
+                                and "runtime.tracebackothers" in out and "runtime.Stack" in out)
+            if not runtime_tb_crash:
+                break
+            notes.append(f"harness attempt {attempt + 1}: Go runtime crashed inside runtime.Stack (traceback of other goroutines); run repeated")
+            shutil.rmtree(outdir, ignore_errors=True)
+            os.makedirs(outdir)
         if rc or not os.path.exists(os.path.join(outdir, "summary.json")):
             violation({"property": pid, "kind": "correspondence", "suite": "harness-run",
                        "detail": "harness crashed", "log": out[-4000:]}, nofail=True)
@@ -450,6 +462,7 @@ def main():
             "model_mismatches": sum(len(v[0]) for v in mism.values()),
             "known_findings_reproduced": sorted(known_hit.keys()),
             "proof_problems": pr["broken"],
+            "run_notes": notes,
             "planned_not_proved": cfg.get("planned_not_proved", []),
         },
         "assumptions": cfg.get("assumptions", []),
